@@ -11,14 +11,46 @@ def claim(i, technique, text, note, ref):
 def na(i, reason):
     P[i] = dict(claimed=False, reason=reason)
 
-PENDING = "static rules for this property are designed (DESIGN.md section 3) but not yet built in this commit; no claim is made until the check exists"
-for n in range(1, 21):
-    na("C%02d" % n, PENDING)
+TECH = {
+ "C01": "static analysis: symbolic byte-count summaries of Encode paths vs Len() per guard valuation (SIZE), header/type/constant table extraction (TABLE)",
+ "C02": "static analysis: SSA value-origin tracing for ownership (ORIGIN), decision-table comparison decoder-admits vs encoder-admits, extent confinement of reads after decodeHeader (TRACE)",
+ "C03": "static path analysis of Decoder.Read / Encoder.Write / BaseConn.Receive / wsStream.Read: limit-before-buffering, error implies nil packet, shipped slice == encoded slice",
+ "C04": "decision-table extraction from Tree.match/search over a symbolic (topic end, segment kind) valuation, compared with the MQTT 4.7 reference rows",
+ "C05": "must-hold lockset analysis (LOCK), one-critical-section typestate per exported method, SSA alias-origin analysis of returned slices (ORIGIN)",
+ "C06": "SSA allocation-site analysis for per-filter subscription objects, path analysis of fan-out (one enqueue per session, gate, retain cleared first), QoS cap decision table, shared-message write inventory",
+ "C07": "static path analysis (TRACE): ack-after-enqueue ordering, who-may-send PUBACK/PUBCOMP inventory, per-QoS decision table of the publish handler, delete-before-PUBCOMP ordering",
+ "C08": "static path analysis over the type-checked AST (TRACE engine): store-before-send, ack-deletes, resend order, session-present table, Setup clean/resume tables, writer inventory",
+ "C09": "static path analysis of the client's publish/ack/teardown paths, who-may-complete inventory of futures, unchecked type-assertion justification, tomb Go/Wait typestate, error-origin rule for goroutine functions",
+ "C10": "decision-table extraction from the client's inbound PUBLISH/PUBREL handlers over (QoS, callback mode, stored) valuations; no-ack-after-callback-error path rule",
+ "C11": "writer inventory and decision table of the retained tree over (retain flag, payload empty), copy-before-clear origin rule, replay path rule, search table (shared with C04)",
+ "C12": "writer inventories of Client.will / Client.state with path conditions, decision table of cleanup over (state, will), single-call-site and ordering rule for the reaper",
+ "C13": "must-hold lockset analysis of the backend registry (LOCK), path analysis of Setup's close-wait-register sequence and of Terminate, CONNACK-after-Setup ordering",
+ "C14": "type-assertion justification (ASSERT), error-origin and error-handling rules over every goroutine function, escape-case inventory of blocking channel operations, reachability of explicit panics, exhaustive packet switch",
+ "C15": "SSA origin analysis of the resend slice (no map-order), goroutine/receiver multiplicity inventory, lockset at every session-queue send",
+ "C16": "token site inventory vs the token table, per-QoS path rule for the dequeuer iteration, take-before-send ordering, capacity == fill == configured window",
+ "C17": "static path analysis of client.Service: book-before-dispatch ordering, future attach-or-cancel on every path, fresh tomb per Start, protect-before-run; inherits the client's Go/Wait typestate and error-origin rules",
+ "C18": "three-point abstract interpretation of NextID (never zero), single-increment path rule, lockset analysis, GetID case table vs types with an ID field, direction routing table",
+ "C19": "must-hold lockset analysis of BaseConn (send/receive mutex discipline), error-closes-carrier and flush-before-close path rules, WebSocket Close write-freedom",
+ "C20": "static path analysis of the broker's protocol gate: checked first-packet assertion, auth-failure table, exhaustive packet switch table, id/return-code correlation origins, at most one CONNACK per path",
+}
 
-claim("C08", "static path analysis over the type-checked AST (TRACE engine): store-before-send, ack-deletes, resend order, session-present table, Setup clean/resume tables, writer inventory",
-      "Decides on every control-flow path of the broker's dequeuer, acknowledgement handlers, connect handler and MemoryBackend.Setup/Publish the structural clauses of the property: recorded before transmitted, deleted/replaced on acknowledgement, resent with DUP after CONNACK and before new deliveries, session-present == (!clean && resumed), clean discards, stored queue survives resume, offline enqueue non-blocking. Each is a necessary condition (several are literal sentences of the statement); the behaviour over all runtime failure positions is not decided.",
-      "Trusted: go/types + go/packages (x/tools v0.29.0), the frozen reference tables in the checker; assumes Session implementations honour their documented contract; field keys are instance-insensitive.",
-      "DESIGN.md §3 C08")
+def from_evidence(i):
+    ev = json.load(open("/verif/evidence/%s.json" % i))
+    cov = ev["coverage"]
+    text = cov["explanation"]
+    rules = ", ".join("%s[%d]" % (r["rule"].split("/")[1], r["instances"]) for r in cov["rules"])
+    nd = "; ".join(cov.get("not_decided") or [])
+    asum = "; ".join(ev.get("assumptions") or [])
+    text = ("Level 'other': decides structural clauses (necessary conditions) of the property on every control-flow path of the anchored code, from the type-checked source only; it does not decide the behaviour over runtime values/schedules. " + text +
+            " Why this level: the named clauses are visible in the shape of the code and a violation of any of them breaks the property; the remaining clauses quantify over runtime quantities no sound static argument in reach can bound.")
+    note = ("Rules run (instances on the pinned tree): " + rules + ". NOT decided: " + (nd or "-") + ". Assumes/trusts: go/packages+go/types+go/ssa (x/tools v0.29.0), the reference tables frozen in the checker (DESIGN.md section 3)" + ("; " + asum if asum else "") +
+            ". An anchor that cannot be found, an instance count below the confirmed floor, a type error or an analysis panic is reported as a violation (UNDECIDED).")
+    return text, note
+
+for n in range(1, 21):
+    i = "C%02d" % n
+    text, note = from_evidence(i)
+    claim(i, TECH[i], text, note, "DESIGN.md section 3 " + i)
 
 def main():
     checks, nas = [], []
